@@ -6,20 +6,28 @@ contains '.' or '/'); every state's strings are parsed back with an independent 
 compared with the composing map.  Plus every (unit, category) of the shipped table as a simple
 quantity, and repr/str of the value objects built on it.
 """
-from barril.units import Array, ObtainQuantity, Scalar
+from collections import OrderedDict
+
+from barril.units import Array, ObtainQuantity, Quantity, Scalar
 
 from .. import algebra, worlds
 from ..par import chunks, run_sharded
 from ..ref import unitgrammar as ug
 from ..runner import Part
 
-BASIS = algebra.BASIS + [("temperature", "K"), ("thermodynamic temperature", "K")]
-VALUES = algebra.PRIMES
+# (the last two: a category / quantity type and a unit name that end with a parenthesis)
+BASIS = algebra.BASIS + [("temperature", "K"), ("thermodynamic temperature", "K"), ("activity (of radioactivity)", "Bq"), ("amount of substance", "kgmol")]
+VALUES = algebra.PRIMES + [31.0, 37.0]
 ATOMS = {u for _c, u in BASIS}
 
 
 def _expected_units(q):
-    joined = [(u, e) for u, e in q.GetComposingUnitsJoiningExponents() if e != 0]
+    """the units with their exponents joined per symbol, from the composing map itself (not from the getter the
+    printer reads: both could be wrong together)"""
+    d = OrderedDict()
+    for _c, (u, e) in q.GetCategoryToUnitAndExps().items():
+        d[u] = d.get(u, 0) + e
+    joined = [(u, e) for u, e in d.items() if e != 0]
     return [(u, e) for u, e in joined if e > 0] + [(u, e) for u, e in joined if e < 0]
 
 
@@ -321,6 +329,18 @@ def run(ctx):
         part.count("simple_quantities_rendered_first", len(db.unit_to_unit_info))
         _g2, t2 = algebra.explore(db, depth, BASIS, VALUES, on_transition=on_transition, reciprocals=True)
         transitions += t2
+        # quantities holding two units of one quantity type (obtainable only from a hand-made composing map)
+        from .c04 import MIXED
+
+        for name, entries in MIXED + [("{length: m^2, depth: cm^-1}", [("length", ["m", 2]), ("depth", ["cm", -1])])]:
+            for form, mkq in (("Quantity.CreateDerived", lambda: Quantity.CreateDerived(OrderedDict((c, list(ue)) for c, ue in entries))), ("ObtainQuantity", lambda: ObtainQuantity(OrderedDict((c, list(ue)) for c, ue in entries)))):
+                try:
+                    sm = Scalar(mkq(), 2.0)
+                except Exception as e:
+                    part.violation("C20:raised:Scalar(%s(%s), 2.0)" % (form, name), {"error": repr(e)})
+                    continue
+                check_state(part, db, sm, "Scalar(%s(%s), 2.0)" % (form, name), "Scalar(Quantity.CreateDerived(OrderedDict(%r)), 2.0)" % (entries,), {c: ue[1] for c, ue in entries})
+                part.count("mixed_unit_quantities")
         for st in graph[: len(BASIS)]:
             check_state(part, db, st.scalar, algebra.describe(st.history, BASIS, VALUES), algebra.expr(st.history, BASIS, VALUES))
         deepest = graph[-1]
